@@ -138,3 +138,15 @@ CONTRACTS.update({
         loops=[{"modifies": [], "invariant": ["not any(type(n) not in supported_types for n in _seq[:_i])"]}],
     ),
 })
+
+HP = "runners/_shared/helpers.py:"
+CONTRACTS.update({
+    HP + "_validate_on_missing": dict(
+        props=["C08", "C16"], params={"on_missing": STR}, returns=NONE_T,
+        raises={"ValueError": "on_missing not in ('ignore', 'warn', 'error')"}, modifies=[],
+    ),
+    HP + "_validate_error_handling": dict(
+        props=["C08", "C11"], params={"error_handling": STR}, returns=NONE_T,
+        raises={"ValueError": "error_handling not in ('raise', 'continue')"}, modifies=[],
+    ),
+})
